@@ -202,6 +202,36 @@ def run(F, R, tier):
                                 w.add((c_, kind))
         return w
 
+    ID_CONV = re.compile(r"(::id|as_ref|borrow|deref|clone|to_owned)$")
+
+    def whole_id(t_, is_base):
+        """t_ is the whole identifier of a base value: the base, its `id` member / accessor, through payload projections and
+        borrows only — not a fragment, a DID or any other part of it"""
+        while isinstance(t_, tuple):
+            if is_base(t_):
+                return True
+            if t_[:1] == ("payload",) or (t_[:1] == ("field",) and t_[2] in ("id", "0")):
+                t_ = t_[1]
+            elif t_[:1] == ("call",) and ID_CONV.search(re.sub(r"<[^<>]*>", "", t_[1])) and len(t_[2]) == 1:
+                t_ = t_[2][0]
+            else:
+                return False
+        return False
+
+    def partial_comparisons(tab, id_root):
+        """eq decisions between (something of) the new entry and (something of) an existing entry that do not compare the two
+        whole identifiers: the gate then refuses (or admits) on a part of the id — a fragment, a DID"""
+        bad = set()
+        for q in tab.paths:
+            for (a, c, _, _) in q.decisions:
+                if a[0] != "eq":
+                    continue
+                for x, y in ((a[1], a[2]), (a[2], a[1])):
+                    if SR.derives(y, id_root) and any(isinstance(z, tuple) and z[:1] == ("elem",) for z in SY.subterms(x)) and not SR.derives(x, id_root):
+                        if not (whole_id(y, lambda b_: b_ == id_root) and whole_id(x, lambda b_: b_[:1] == ("elem",))):
+                            bad.add("%s == %s" % (SY.fmt(x), SY.fmt(y)))
+        return sorted(bad)
+
     ck = CDD + "::check_id_constraints"
     if r2.anchor(F.hir(ck), "check_id_constraints"):
         tab = SR.Table(F, ck, rule=r2, max_paths=8000)
@@ -219,6 +249,8 @@ def run(F, R, tier):
         tab = SR.Table(F, fn, opaque=GATE_OPQ, rule=r2, max_paths=8000)
         w = collision_witnesses(tab, "InvalidServiceInsertion", SR.param("service"))
         r2.site("insert_service rejects an id equal to the raw id of: %s" % sorted(w))
+        pc = partial_comparisons(tab, SR.param("service"))
+        r2.require(not pc, (fn, "compare-whole"), "insert_service compares a part of an identifier, not the whole of it: %s" % "; ".join(pc[:3]))
         missing_rel = [c_ for c_ in REL_FIELDS if not {(c_, "Embed"), (c_, "Refer")} <= w]
         r2.require(not missing_rel or not tab.paths, (fn, "universe", "relationships"), "insert_service does not compare against the raw ids of all relationship entries (embedded and referenced): missing %s" % missing_rel)
         r2.require(any(c_ == "verification_method" for c_, _ in w) or not tab.paths, (fn, "universe", "verification_method"), "insert_service does not compare against the general-purpose methods")
@@ -230,6 +262,8 @@ def run(F, R, tier):
     if r2.anchor(F.hir(fn), fn):
         tab = SR.Table(F, fn, opaque=GATE_OPQ, rule=r2, max_paths=8000)
         w = collision_witnesses(tab, "MethodInsertionError", SR.param("method"))
+        pc = partial_comparisons(tab, SR.param("method"))
+        r2.require(not pc, (fn, "compare-whole"), "insert_method compares a part of an identifier, not the whole of it (an entry that only shares a fragment or a DID with the new method makes it refuse): %s" % "; ".join(pc[:3]))
         kinds = set()
         if all({(c_, "Embed"), (c_, "Refer")} <= w for c_ in REL_FIELDS):
             kinds.add("raw-relationships")
